@@ -307,6 +307,74 @@ func c11GenEscaped(r *rand.Rand, path bool) string {
 	}
 }
 
+// c11HandEscape writes the escaped form of s by the documented rule, whether or not
+// Escape would accept s: '!' + lower-case letter for every upper-case letter.
+func c11HandEscape(s string) string {
+	var b strings.Builder
+	for i := 0; i < len(s); i++ {
+		if 'A' <= s[i] && s[i] <= 'Z' {
+			b.WriteByte('!')
+			b.WriteByte(s[i] + 32)
+		} else {
+			b.WriteByte(s[i])
+		}
+	}
+	return b.String()
+}
+
+var c11Reserved = []string{"con", "prn", "aux", "nul", "com1", "com5", "com9", "lpt1", "lpt3", "lpt9", "com0", "com10", "lpt", "conx", "xcon", "null"}
+
+// c11NearElem: an element that is invalid (or just valid) for reasons other than its
+// characters: reserved Windows names in mixed case with and without extensions, trailing /
+// leading / only dots, tilde-digit short names.
+func c11NearElem(r *rand.Rand) string {
+	switch r.Intn(10) {
+	case 0, 1, 2:
+		return c11MixCase(r, pick18(r, c11Reserved...))
+	case 3, 4:
+		return c11MixCase(r, pick18(r, c11Reserved...)) + "." + c11MixCase(r, pick18(r, "txt", "v2", "tar.gz", "go", "c", "x~1"))
+	case 5:
+		return c11MixCase(r, pick18(r, "foo", "v1.0.0", "a.b", "Rel")) + pick18(r, ".", "..", ". ")
+	case 6:
+		return pick18(r, ".", "..", "...", ".") + c11MixCase(r, pick18(r, "", "git", "a", "Hidden"))
+	case 7:
+		return c11MixCase(r, pick18(r, "progra", "foo", "a", "LongName")) + "~" + pick18(r, "1", "2", "12", "1a", "") + pick18(r, "", ".txt", ".Go")
+	case 8:
+		return c11MixCase(r, pick18(r, "v1.0.0", "release", "Master", "v2.0.0-RC1", "v1.2.3+Incompatible"))
+	default:
+		return c11MixCase(r, pick18(r, c11Reserved...)) + pick18(r, "-x", "_", "1", " ", "+")
+	}
+}
+
+// c11NearPath: module paths valid except for one structural rule (or valid), mixed case.
+func c11NearPath(r *rand.Rand) string {
+	dom := pick18(r, "example.com", "github.com", "a.b", "gopkg.in", "x.y.z")
+	switch r.Intn(12) {
+	case 0: // missing dot in the first element
+		return pick18(r, "example", "localhost", "Foo", "std") + "/" + c11MixCase(r, "pkg/sub")
+	case 1: // upper case in the first element
+		return c11MixCase(r, "Example.Com") + "/" + c11MixCase(r, "pkg")
+	case 2: // bad major-version suffix
+		return dom + "/" + c11MixCase(r, "pkg") + pick18(r, "/v1", "/v0", "/v01", "/v2.1", "/v1.2.3")
+	case 3:
+		return dom + "/" + c11NearElem(r)
+	case 4:
+		return dom + "/" + c11MixCase(r, "pkg") + "/" + c11NearElem(r) + "/" + c11MixCase(r, "sub")
+	case 5:
+		return c11NearElem(r) + ".com/" + c11MixCase(r, "pkg")
+	case 6:
+		return dom + "/" + c11MixCase(r, "Pkg") + pick18(r, "/", "//x", "/./y", "/../z")
+	case 7:
+		return pick18(r, "-", "/", ".") + dom + "/" + c11MixCase(r, "pkg")
+	case 8:
+		return "gopkg.in/" + c11MixCase(r, pick18(r, "yaml", "Check", "user/Pkg")) + pick18(r, ".v1", ".v2-unstable", ".v0", ".v01", "", ".V1", ".v1-Unstable")
+	case 9:
+		return dom + "/" + c11MixCase(r, pick18(r, "a_b", "x-y", "my~pkg", "Q.R", "AZaz09"))
+	default:
+		return c11UpperTail(r, gen.ModulePath(r))
+	}
+}
+
 type c11Buckets struct {
 	m map[string]string
 }
@@ -445,6 +513,26 @@ func runC11(c *hx.Ctx) {
 	for i := 0; i < c.N(8000); i++ {
 		onUnPath(c11GenEscaped(r, true))
 		onUnVersion(c11GenEscaped(r, false))
+	}
+	// Unescape on the hand-escaped form of near-valid inputs (valid or invalid for reasons
+	// other than their characters), and Escape on the inputs themselves
+	for i := 0; i < c.N(6000); i++ {
+		p := c11NearPath(r)
+		onPath(p)
+		onUnPath(c11HandEscape(p))
+		v := c11NearElem(r)
+		onVersion(v)
+		onUnVersion(c11HandEscape(v))
+		if module.CheckPath(p) != nil {
+			c.Count("near:path-invalid")
+		} else {
+			c.Count("near:path-valid")
+		}
+		if c11Allowed(v) {
+			c.Count("near:version-allowed")
+		} else {
+			c.Count("near:version-refused")
+		}
 	}
 	// adversarial pairs for fold-injectivity: inputs whose escapes differ only in case or in
 	// the placement of '!'
